@@ -26,6 +26,13 @@ func FromString(input string) CacheKey {
 	return NewCacheKey([]byte(input))
 }
 
+// Reports whether the path names a directory-like resource once its dot-segments are removed:
+// it ends in a slash, or in a "." or ".." segment, which leave a trailing slash behind (RFC 3986 5.2.4),
+// so "/dir/." and "/dir/sub/.." name "/dir/", not "/dir".
+func endsInDirectory(p string) bool {
+	return strings.HasSuffix(p, "/") || strings.HasSuffix(p, "/.") || strings.HasSuffix(p, "/..")
+}
+
 func MakeFromRequest(r *http.Request) CacheKey {
 	scheme := "http"
 	if r.TLS != nil {
@@ -36,7 +43,7 @@ func MakeFromRequest(r *http.Request) CacheKey {
 	// would become a separator and "/a%2Fb" would share the entry of "/a/b".
 	rawPath := r.URL.EscapedPath()
 	normPath := path.Clean(rawPath)
-	if strings.HasSuffix(rawPath, "/") && !strings.HasSuffix(normPath, "/") {
+	if endsInDirectory(rawPath) && !strings.HasSuffix(normPath, "/") {
 		// path.Clean drops a trailing slash, but "/dir/" and "/dir" are different resources.
 		normPath += "/"
 	}
